@@ -409,6 +409,22 @@ mod verif_kani_parsed {
                                         if p.second == Some(60) && base.second() != 0 && base.second() != 59 { assert!(r == Err(IMPOSSIBLE), "a leap second can only sit at the end of a minute"); }
                                         if step { assert!(cs_calls == 1 && cs_args == Some((base, TimeDelta::try_seconds(1).unwrap())), "stepped back exactly one second"); } else { assert!(cs_calls == 0, "no step otherwise"); }
                                         if step && stepped.is_none() { assert!(r == Err(OUT_OF_RANGE), "the step leaves the range: OutOfRange"); }
+                                        // completeness of this step: unless the leap second sits mid-minute, the step leaves the range or a supplied field
+                                        // contradicts the second the timestamp names, the completed field set IS handed to the two resolvers and their answer returned
+                                        let early = (p.second == Some(60) && base.second() != 0 && base.second() != 59) || (step && stepped.is_none());
+                                        if !early {
+                                            let want = if step { stepped.unwrap() } else { base };
+                                            let conflict = p.year.map_or(false, |y| y != want.year()) || p.ordinal.map_or(false, |o| o != want.ordinal())
+                                                || p.hour_div_12.map_or(false, |v| v != want.hour() / 12) || p.hour_mod_12.map_or(false, |v| v != want.hour() % 12)
+                                                || p.minute.map_or(false, |v| v != want.minute()) || (p.second != Some(60) && p.second.map_or(false, |v| v != want.second()));
+                                            let (dc, tc) = unsafe { (REC.date_calls, REC.time_calls) };
+                                            if conflict { assert!(r == Err(IMPOSSIBLE) && dc == 1, "a supplied field contradicting the timestamp: Impossible"); }
+                                            else {
+                                                assert!(dc == 2, "the completed field set is resolved");
+                                                let (d2, t2) = unsafe { (REC.date_res[1].unwrap(), REC.time_res[1]) };
+                                                match d2 { Err(e) => assert!(r == Err(e), "date error passed on"), Ok(d) => { assert!(tc == 2, "then the time"); match t2.unwrap() { Err(e) => assert!(r == Err(e), "time error passed on"), Ok(t) => assert!(r == Ok(d.and_time(t)), "date and time of the completed field set") } } }
+                                            }
+                                        }
                                         if let Ok(dt) = r {
                                             let want = if step { stepped.unwrap() } else { base };
                                             let (d2, t2) = unsafe { (REC.date_res[1].unwrap(), REC.time_res[1].unwrap()) };
